@@ -346,9 +346,9 @@ func init() {
 			return nil
 		},
 		Stages: []*fw.Stage{
-			{Name: "plain", N: q(240, 6000), Run: func(c *fw.Case) { c13Case(c, true) }},
-			{Name: "raceA", Race: true, NoHandler: true, N: q(96, 2400), GoMaxProcs: gmp, Run: func(c *fw.Case) { c13Case(c, false) }},
-			{Name: "raceB", Race: true, N: q(96, 2400), GoMaxProcs: gmp, Run: func(c *fw.Case) { c13Case(c, true) }},
+			{Name: "plain", N: q(240, 3000), Run: func(c *fw.Case) { c13Case(c, true) }},
+			{Name: "raceA", Race: true, NoHandler: true, N: q(120, 1500), GoMaxProcs: gmp, Run: func(c *fw.Case) { c13Case(c, false) }},
+			{Name: "raceB", Race: true, N: q(120, 1500), GoMaxProcs: gmp, Run: func(c *fw.Case) { c13Case(c, true) }},
 		},
 	})
 }
